@@ -34,8 +34,9 @@ Min(a, b) == IF a <= b THEN a ELSE b
 Range(s) == { s[i] : i \in DOMAIN s }
 LeaderApis == {"Produce", "Fetch", "ListOffsets"}
 CtrlrApis == {"CreateTopics", "DeleteTopics"}
-CoordApis == {"OffsetCommit", "OffsetFetch", "JoinGroup", "Heartbeat", "SyncGroup", "LeaveGroup",
-              "InitProducerId", "AddPartitionsToTxn", "AddOffsetsToTxn", "EndTxn"}
+GroupApis == {"OffsetCommit", "OffsetFetch", "JoinGroup", "Heartbeat", "SyncGroup", "LeaveGroup"}
+TxnApis == {"InitProducerId", "AddPartitionsToTxn", "AddOffsetsToTxn", "EndTxn"}
+CoordApis == GroupApis \cup TxnApis
 SlackMs == cfg.ttlMs * 3 + 2000
 
 PlanOf(o) == LET S == { i \in DOMAIN cfg.ops : cfg.ops[i].o = o } IN
@@ -104,7 +105,12 @@ ReqBad(e) ==
         IF o <= 0 THEN FALSE
         ELSE IF e.api \in LeaderApis THEN \A i \in cand : AddrIn(metas[i], LeaderIn(metas[i], e.t, e.p)) # e.ep
         ELSE IF e.api \in CtrlrApis THEN \A i \in cand : AddrIn(metas[i], metas[i].ctrlr) # e.ep
-        ELSE IF e.api \in CoordApis THEN ~(o \in DOMAIN fc /\ \E i \in cand : AddrIn(metas[i], fc[o]) = e.ep)
+        \* coordinator requests: the broker their own FindCoordinator answered, and that look-up asked for the right
+        \* kind of coordinator (key type 0 = group, 1 = transaction; FindCoordinator v0 has no key type)
+        ELSE IF e.api \in CoordApis
+          THEN ~(/\ o \in DOMAIN fc
+                 /\ \E i \in cand : AddrIn(metas[i], fc[o].node) = e.ep
+                 /\ fc[o].v >= 1 => fc[o].keytype = (IF e.api \in TxnApis THEN 1 ELSE 0))
         ELSE FALSE
       addrBad == FALSE
       br == BRange(e.broker, e.api)
@@ -184,7 +190,7 @@ Upd(e) ==
          /\ metas' = IF e.api = "Metadata"
                        THEN Append(metas, [n |-> e.n, ok |-> ~failed, alive |-> e.alive, ctrlr |-> e.ctrlr, topics |-> e.topics, addrs |-> e.addrs, pos |-> l])
                        ELSE metas
-         /\ fc' = IF e.api = "FindCoordinator" /\ ~failed /\ e.o > 0 THEN (e.o :> e.node) @@ fc ELSE fc
+         /\ fc' = IF e.api = "FindCoordinator" /\ ~failed /\ e.o > 0 THEN (e.o :> [node |-> e.node, keytype |-> e.keytype, v |-> e.v]) @@ fc ELSE fc
          /\ conn' = (e.conn :> [C(e.conn) EXCEPT !.pend = IF failed THEN @ ELSE Max(0, @ - 1), !.failed = @ \/ failed]) @@ conn
          \* which call loses its response: the one the request belongs to, or (connection set-up) the only one running
          /\ cutSeen' = IF ~failed THEN cutSeen
